@@ -158,6 +158,8 @@ func (g *gen) sweep() []string {
 	ops = append(ops, g.faultCase(2, 1, false, 1, false, 12)...)
 	ops = append(ops, g.stallCase(0, 2, 10040, 60)...)
 	ops = append(ops, g.stallCase(1, 0, 10040, 60)...)
+	ops = append(ops, g.slowDrainCase(0, 10040, 0, 3)...)
+	ops = append(ops, g.slowDrainCase(2, 10100, 2, 2)...)
 	return ops
 }
 
@@ -177,6 +179,21 @@ func (g *gen) stallCase(to, to2, n, tail int) []string {
 	ops = append(ops, fmt.Sprintf("req c=0 to=%d r=%d/P0x%d,r,P0x%d,p1", to, g.id(0), n, tail))
 	ops = append(ops, fmt.Sprintf("req c=1 to=%d r=%d/p1,P0x30,r,p1,p0", to2, g.id(1)))
 	ops = append(ops, "go ms=5", "resume c=0", "go ms=5", "settle")
+	return ops
+}
+
+// a client that stopped reading until more than the send queue holds is outstanding, then reads again but
+// SLOWLY (its link holds the next few packets up for some ms each: the writer sits in conn.Write with a packet
+// in its hand and one free slot in chSend) while the same service issues more towards it: what is issued now
+// must queue up behind everything that is still waiting, wherever that waits
+func (g *gen) slowDrainCase(to, n, skip, k int) []string {
+	g.h.Count("case:stalled-client-slow-drain")
+	g.nreq = map[int]int{}
+	ops := []string{"reset n=2 slow=1", "stall c=0"}
+	ops = append(ops, fmt.Sprintf("req c=0 to=%d r=%d/P0x%d,r,P0x40,p1", to, g.id(0), n))
+	ops = append(ops, fmt.Sprintf("lag c=0 n=%d ms=5 skip=%d", k, skip), "resume c=0")
+	ops = append(ops, fmt.Sprintf("req c=1 to=%d r=%d/p0,P0x4,r,p0,p1", to, g.id(1)))
+	ops = append(ops, "go ms=3", fmt.Sprintf("req c=1 to=%d r=%d/p0,r", to, g.id(1)), "go ms=50", "settle")
 	return ops
 }
 
@@ -334,6 +351,8 @@ func (g *gen) genCase() []string {
 		victim := r.Intn(nc - 1)
 		req := (victim + 1 + r.Intn(nc-1)) % nc
 		return g.busyCloseCase(nc, victim, req, r.Intn(nc), r.Intn(len(svcNames)))
+	case x == 37 || (x == 38 && r.Intn(2) == 0):
+		return g.slowDrainCase(r.Intn(len(svcNames)), 10050+r.Intn(500), r.Intn(4), 1+r.Intn(5))
 	case x >= 34 && x < 37:
 		return g.oddClientCase(r.Intn(len(svcNames)), r.Intn(len(svcNames)), 1+r.Intn(2), r.Intn(3) == 0, r.Intn(4), 1+r.Intn(3))
 	case x < 2:
